@@ -158,6 +158,75 @@ def rule_blocking(ctx):
                 lits = tags.literals_of(prog, b, s.node["args"][1], tags_list_params(b))
                 r.check(any(l.role == "SEL" and l.pos and ".selector" in str(l.note) for l in lits), b.id + "|same-range", "assumptions:%s" % lits, "the same-range search assumes the computer's selector positively", "the same-range search does not switch the blocking clauses off (positive selector missing)", s.loc())
     r.floor(n2, 1, "same-range searches")
+    # polarity of the two halves of the split in the same-range search: members as they are, complement negated
+    inst_ids = {cb.id for _, cb, _, _ in inst}
+    n3 = 0
+    for b in prog.lib_bodies():
+        fnb = prog.enclosing_fn(b)
+        if b.id in inst_ids or fnb.id in inst_ids or not (fnb.path.startswith("solvers::") or "<solvers::" in fnb.path.split(" as ")[0]):
+            continue
+        for s in b.calls():
+            t = prog.body_for_callee(callee_of(s), b) if callee_of(s) else None
+            if t is None or t.kind == "closure" or not re.match(r"^\(alloc::vec::Vec<sat::sat_solver::Literal>, alloc::vec::Vec<sat::sat_solver::Literal>\)$", t.ret_ty):
+                continue
+            roles = splitter_roles(prog, t)
+            if sorted(roles.values()) != ["complement", "members"]:
+                continue
+            n3 += 1
+            for i, role in sorted(roles.items()):
+                neg = _all_elements_negated(prog, b, s, i)
+                want = role == "complement"
+                r.check(neg == want, "%s|same-range-polarity|%s" % (b.id, role), "negated=%s" % neg, "the %s half of the split enters the same-range assumptions %s" % (role, "negated" if want else "as it is"), "in the same-range search the %s literals are %s: the search no longer fixes the range of the current extension" % (role, "not negated" if want else "negated"), s.loc())
+    r.floor(n3, 1, "splits used outside the installed closures (same-range search)")
+
+
+_VEC_VIEW = (
+    "core::slice::iter_mut",
+    "core::slice::iter",
+    "core::iter::traits::collect::IntoIterator::into_iter",
+    "core::ops::deref::Deref::deref",
+    "core::ops::deref::DerefMut::deref_mut",
+    "alloc::vec::Vec::as_mut_slice",
+    "alloc::vec::Vec::as_slice",
+    "alloc::vec::Vec::iter_mut",
+    "core::iter::traits::iterator::Iterator::by_ref",
+)
+
+
+def _is_component(b, op, split_site, idx):
+    """the operand is (a view of / an iterator over) component `idx` of the tuple returned at split_site"""
+    for o in origins(b, op, transparent=_VEC_VIEW):
+        if o.kind == "call" and o.site is not None and (o.site.bb, o.site.si) == (split_site.bb, split_site.si) and o.fields and str(o.fields[0]) == str(idx):
+            return True
+    return False
+
+
+def _all_elements_negated(prog, b, split_site, idx):
+    """is every element of component `idx` of the split negated before the vector is used: in place
+    (`iter_mut().for_each(|l| *l = l.negate())`, a `for` loop doing the same) or on the way out
+    (`into_iter().map(Literal::negate)`, a mapping closure that negates)"""
+    for s in b.calls():
+        c = callee_of(s)
+        if c is None or not s.node["args"] or op_place(s.node["args"][0]) is None:
+            continue
+        if not _is_component(b, s.node["args"][0], split_site, idx):
+            continue
+        d = callee_decl(c)
+        if d in ("core::iter::traits::iterator::Iterator::for_each", "core::iter::traits::iterator::Iterator::map"):
+            for fa in c.get("fn_args") or []:
+                if fa.endswith("sat_solver::Literal::negate"):
+                    return True
+                clo = prog.lib(fa)
+                if clo is not None and any(callee_matches(callee_of(x), r"sat_solver::Literal::negate$") for x in clo.calls()):
+                    return True
+        if d == "core::iter::traits::iterator::Iterator::next" and b.in_loop(s.bb):
+            # `for l in v.iter_mut() { *l = l.negate() }`
+            blocks = dict(b.loops())[b.in_loop(s.bb)[-1]]
+            for x in b.calls():
+                if x.bb in blocks and callee_matches(callee_of(x), r"sat_solver::Literal::negate$"):
+                    if any(o.kind == "call" and o.site is not None and o.site.bb == s.bb for o in origins(b, x.node["args"][0], transparent=("core::ops::deref::Deref::deref", "core::clone::Clone::clone"))):
+                        return True
+    return False
 
 
 def tags_list_params(fn):
@@ -384,3 +453,29 @@ def rule_single_computation(ctx):
             r.check(bad is None, b.id, "restarted-computation", "delegates to one query method per path", "the query delegates to other query methods %s: the computation is run more than once for one query" % bad, b.loc())
     r.floor(n, 30, "query methods of the static solvers")
     r.floor(n_deleg, 4, "query methods delegating to another query method")
+
+
+def rule_selector_freshness(ctx):
+    prog = ctx.prog
+    r = ctx.rule(
+        "retired-selector-not-reused",
+        "a selector that is retired inside a loop (unit clause of its negation) was created in the same iteration (`1 + n_vars()` read "
+        "inside the loop): once `-s` is a clause, every clause guarded by `s` is dead and assuming `s` again makes the solver unsatisfiable",
+    )
+    n = 0
+    for b in sorted(prog.lib_bodies(), key=lambda x: x.id):
+        fnb = prog.enclosing_fn(b)
+        if not (fnb.path.startswith("solvers::") or "<solvers::" in fnb.path.split(" as ")[0]):
+            continue
+        loops = dict(b.loops())
+        for s in b.calls():
+            if not callee_matches(callee_of(s), r"sat_solver::SatSolver::add_clause$") or not b.in_loop(s.bb):
+                continue
+            lits = tags.literals_of(prog, b, s.node["args"][1], set())
+            if len(lits) != 1 or lits[0].role != "SEL" or lits[0].pos is not False or lits[0].site is None or lits[0].site.body is not b:
+                continue
+            n += 1
+            inner = min(b.in_loop(s.bb), key=lambda h: len(loops[h]))
+            created_in = lits[0].site.bb in loops[inner]
+            r.check(created_in, "%s|retire#%d" % (b.id, n), "selector-outlives-iteration", "the retired selector was created in the same iteration", "a selector created before the loop is retired inside it and used again in the next iteration: the query clause it guards is dead from the second iteration on", s.loc())
+    r.floor(n, 1, "selectors retired inside a loop")
